@@ -15,7 +15,7 @@ RULE = ("(i) WalManager operation sequences (log/sync/rotate/checkpoint/reopen; 
         "fresh empty rotated file, cuts of non-final files, single-bit flips (length/body/checksum fields tagged), undecodable payload "
         "with a valid checksum, trailing payload byte, huge length field, garbage metadata: WalRecovery::recover and GrafeoDB::open "
         "(dump and next ids) against the model; oracle: open succeeds and the records are what some prefix of the logged records "
-        "commits; (iii) GrafeoDB histories with a crash (cut full/inside a record/at a boundary/at a byte) followed by reopen, more "
+        "commits; (iii) GrafeoDB histories with a crash (cut full/inside a record/at a boundary/at a byte/1, 2 and 3 bytes into the length prefix of the last, of an earlier and of the very first record - on every run, in NoSync and Sync mode) followed by reopen, more "
         "writes, close, reopen: per session returns, dumps, file bytes, dumps after reopen, the model's fsynced length of the cut file; "
         "oracle: recovered dump = dump after some prefix of the session that covers everything fsynced, and every later clean cycle is "
         "exact; damaged payloads through the record decoder; codec tables against the concrete codec model. "
